@@ -239,7 +239,11 @@ fn process_spcr_block<H: Host>(
     // Setting the border after the value of port 0xfe above because that too
     // sets the border color.
     // Only 3 bits of the color exist in the hardware
-    emulator.controller.border_color = ZXColor::from_bits(block_data[0] & ZXSTSPECREGS_BORDER_MASK);
+    let clocks = emulator.controller.frame_clocks;
+    emulator.controller.set_border_color(
+        clocks,
+        ZXColor::from_bits(block_data[0] & ZXSTSPECREGS_BORDER_MASK),
+    );
 
     Ok(())
 }
